@@ -1,4 +1,4 @@
-from heapq import heappush, heappop
+from heapq import heapify, heappush, heappop
 from itertools import count
 from types import MethodType
 from typing import (
@@ -248,6 +248,7 @@ class Environment:
         environment's time reaches until.
 
         """
+        stop = None
         if until is not None:
             if not isinstance(until, Event):
                 # Assume that until is a number if it is not None and not an
@@ -269,7 +270,8 @@ class Environment:
                 until._value = None
                 # Not self.schedule(until, URGENT, at - self.now): for floats
                 # now + (at - now) need not equal at.
-                heappush(self._queue, (at, URGENT, next(self._eid), until))
+                stop = (at, URGENT, next(self._eid), until)
+                heappush(self._queue, stop)
 
             elif until.callbacks is None:
                 # Until event has already been processed.
@@ -290,4 +292,13 @@ class Environment:
                     f'No scheduled events left but "until" event was not '
                     f'triggered: {until}'
                 )
+        finally:
+            # A stop that was not reached (an exception ended the run) must
+            # not be left behind: it would end a later run() early.
+            if until is not None and until.callbacks is not None:
+                if StopSimulation.callback in until.callbacks:
+                    until.callbacks.remove(StopSimulation.callback)
+                if stop is not None and stop in self._queue:
+                    self._queue.remove(stop)
+                    heapify(self._queue)
         return None
